@@ -113,7 +113,9 @@ func Begin(c Config) {
 		InCall[i] = false
 		CurObj[i] = -1
 		prio[i] = 0
+		holdDepth[i] = 0
 	}
+	HeldYields = 0
 	mode = c.Mode
 	rngS = c.Seed
 	switchP = uint64(c.SwitchP)
@@ -254,6 +256,13 @@ func Yield(site int) {
 		Foreign++
 		return
 	}
+	if holdDepth[me] > 0 {
+		// inside a critical section of the library (sync.Mutex / RWMutex held, or
+		// inside sync.Once.Do): a task never parks while it holds a real lock, or
+		// the task it hands over to could block on that lock with the turn in hand
+		HeldYields++
+		return
+	}
 	ysteps++
 	nxt := pick(me)
 	noteRun(nxt)
@@ -270,6 +279,29 @@ func Yield(site int) {
 	turn = nxt
 	for turn != me {
 		runtime.Gosched()
+	}
+}
+
+var holdDepth [MaxTasks]int
+
+// HeldYields counts yield points passed through because the task held a lock.
+var HeldYields int
+
+// Hold is woven around the library's own lock operations: +1 before
+// Lock/RLock/Once.Do, -1 after Unlock/RUnlock/Once.Do returns.
+//
+//go:norace
+func Hold(d int) {
+	if !active {
+		return
+	}
+	me := turn
+	if me < 0 || taskGoid[me] != curGoid() {
+		return
+	}
+	holdDepth[me] += d
+	if holdDepth[me] < 0 {
+		holdDepth[me] = 0
 	}
 }
 
